@@ -12,8 +12,8 @@ CHECKS = {
                 note="SIGHUP is outside the property's exit paths; after become only crash/termios/modes are checked. A hang is decided by trace silence plus unconsumed batches, with a goroutine dump as witness.",
                 ref="4/C14"),
     "C15": dict(engine="E-tty",
-                technique="runtime monitor: screen parser over tmux capture-pane synchronised with GET / by a nonce handshake and a stable-screen pairing, compared with the reported state",
-                text="After quiescence a nonce prompt synchronises the captured screen with GET /; prompt row, info counts, header rows, list rows (contiguous window of matches[] in the layout's direction, truncation with the ellipsis, width bound), pointer and markers are compared with the state, over three layouts x three info styles x header settings x border x multi, with resizes.",
+                technique="runtime monitor: screen parser over tmux capture-pane, synchronised with the terminal emulator by order (a paint-free title mark appended to the pane's pty) and paired with GET / when the state and the hook trace did not change in between, compared with the reported state",
+                text="After quiescence nothing is posted (a repainting sync action would heal stale rows); the screen is read after the emulator acknowledged a title mark; prompt row, info counts, header rows, list rows (contiguous window of matches[] in the layout's direction, truncation with the ellipsis, width bound), pointer and markers are compared with the state, over three layouts x four info styles x header settings (incl. their order) x border x multi, lines with lengths around the fitting point, with resizes.",
                 note="ASCII items, fullscreen geometry; tmux is the terminal emulator.",
                 ref="4/C15"),
     "C20": dict(engine="E-tty",
@@ -33,27 +33,27 @@ CHECKS = {
                 ref="4/C08"),
     "C09": dict(engine="E-tty",
                 technique="runtime monitor: reference model (readline buffer with kill ring, list cursor, ordered selection map) compared with GET / after every consumed batch; stdout on accept",
-                text="Histories of editing, navigation and selection actions over lists of 0/1/3/200 items, window heights 3-40, three layouts, multi limits, --cycle, two info styles; query, cursor position, current item and ordered selection are compared after every action, and the accept output at the end.",
+                text="Histories of editing, navigation and selection actions over lists of 0/1/3/200 items, window heights 3-40, three layouts, multi limits, --cycle, --track, --no-input, two info styles; query, cursor position, current item and ordered selection are compared after every action, and the output of accept / accept-non-empty / accept-or-print-query at the end.",
                 note="After a query edit the list cursor is re-anchored from the observed state (invariants only). toggle-up/down are generated only where the toggle succeeds.",
                 ref="4/C09"),
     "C12": dict(engine="E-pkg/E-proc",
-                technique="runtime monitor: expansion handed to the real /bin/sh and bash, recorded argv compared with the original strings; canary file; fake-tmux re-launch path with an argv/environment recorder",
+                technique="runtime monitor: expansion handed to the real /bin/sh and bash, recorded argv compared with the original strings; canary file; fake-tmux re-launch path with an argv/environment recorder; real sessions handing {n} / {} to the shell through become",
                 text="Templates over all quoting placeholder forms with hostile item/query texts are expanded by the real code and evaluated by /bin/sh and bash; argv must equal the expected words and nothing else may run. The --tmux re-launch path is driven with a fake tmux and a recorder as argv[0].",
                 note="No NUL bytes; {r}/{f} excluded by definition; fish not installed.",
                 ref="4/C12"),
     "C13": dict(engine="E-pkg (race build)",
-                technique="Go race detector + sequential-oracle monitor over published mergers + deterministic enumeration of cancellation points (point handlers) + porcupine linearizability checking of recorded histories",
+                technique="Go race detector (in-process harness and the whole fzf binary built -race in interactive sessions) + sequential-oracle monitor over published mergers + deterministic enumeration of cancellation points (point handlers) + porcupine linearizability checking of recorded histories",
                 text="Real ChunkList/Matcher.Loop/Merger/caches with the harness as loader and coordinator under -race: every published merger equals the single-threaded filter of the snapshot of an issued request; cancellation injected at every chunk count for 2..12(40) chunks x 4 partition counts; Push/Snapshot/Clear and EventBox histories checked with porcupine; race reports in fzf code are violations.",
                 note="F24 (Snapshot --tail copy vs trimLength cache) is a listed known finding with a stack-pair classifier. Only executed access pairs are seen by the race detector.",
                 ref="4/C13"),
     "C16": dict(engine="E-pkg/E-proc",
                 technique="runtime monitor: reply-grammar checker, side-effect monitor on the action channel and state handler, key-rule monitor over generated requests delivered with random write splits; process-level start-up rule",
                 text="Generated valid/malformed/garbage requests with and without a configured key are handed to the real handler over net.Pipe under five write plans; replies must be well-formed, actions reach the channel iff the request is a complete POST with the exact key and equal the --bind parse of the same text, GET/rejected requests have no side effects, no state without the key; non-local listeners without a key exit 2.",
-                note="Liveness under stalled connections and real TCP is exercised by the interactive checks (C14).",
+                note="Real TCP inside interactive sessions covers liveness, state invariance, the key rule end to end, POST == bind and the loopback bind; a stalled-terminal scenario (the session's tmux server is stopped while redraws and GETs arrive) decides 'no request can wedge fzf' as bounded progress after the terminal resumes.",
                 ref="4/C16"),
     "C17": dict(engine="E-pkg/E-proc",
-                technique="runtime monitor: totality (panic capture), structural override/layering equalities over parsed Options, bind round-trip against generated specifications; process-level exit status",
-                text="Argument vectors from the full option vocabulary x a value pool parse without panics; the binary exits 0/1 or 2 with a message; later occurrences override earlier ones structurally; file < env < argv including positional (--height/--tmux) precedence; generated --bind specifications round-trip with byte-identical arguments in every delimiter form.",
+                technique="runtime monitor: totality (panic capture), structural equalities over parsed Options (override, commutation of unrelated options, concatenation of the three sources, malformed sources rejected), bind round-trip against generated specifications; process-level exit status",
+                text="Argument vectors from the full option vocabulary x a value pool parse without panics; the binary exits 0/1 or 2 with a message; later occurrences override earlier ones structurally; file < env < argv including positional (--height/--tmux) precedence, and the three sources together equal the same words on one command line; unrelated options commute; generated --bind specifications (multi-key pairs, + append prefix, bare put) round-trip with byte-identical arguments in every delimiter form.",
                 note="Expected expansion of an action name is its parse in isolation; punctuation keys alone.",
                 ref="4/C17"),
     "C01": dict(engine="E-lib/E-proc",
@@ -62,14 +62,14 @@ CHECKS = {
                 note="Trusted: the reference evaluator (refq, ~250 lines, shares only the accent table with fzf) and the well-formedness rules of generated queries.",
                 ref="4/C01"),
     "C04": dict(engine="E-lib/E-proc",
-                technique="runtime monitor: permutation check + metamorphic sub-list/pair order consistency + semantic tiebreak monitor on unambiguous workloads",
+                technique="runtime monitor: permutation check + metamorphic sub-list/pair order consistency + semantic tiebreak monitor on unambiguous workloads + access-pattern monitor on the real lazily merged list (index probes vs sequential read vs single-threaded sort)",
                 text="Filter output is checked to be a permutation of the reference matches; relative order of adjacent pairs and random sub-lists must equal their order when filtered alone (global sort == partitioned sort + merge) over 0..60000 lines, --tail, 1/2/16 CPUs; on single-occurrence exact-term workloads the order must follow score then the documented tiebreak criteria.",
-                note="'end' and 'pathname' are only decided where the documentation is unambiguous. Merger random access is exercised by the C13 harness.",
+                note="'end' and 'pathname' are only decided where the documentation is unambiguous.",
                 ref="4/C04"),
     "C06": dict(engine="E-pkg/E-proc",
-                technique="runtime monitor: reference split over recorded pusher deliveries (re-read after the last read), process-level stdin/stdout comparison with controlled write schedules",
+                technique="runtime monitor: reference split over recorded pusher deliveries (re-read after the last read), process-level stdin/stdout comparison with controlled write schedules, and a live-stream monitor: GET / of an interactive fzf reading from a FIFO held open by the harness, compared with the record model at trace-defined points (snapshot taken after every delivered record was read, its search displayed)",
                 text="Reader.feed is driven with OS-like read results under exhaustive and generated cut plans around buffer/slab/delimiter boundaries; delivered records are compared at push time and again after all reads; the binary's stdout for -f '' with --read0/--tail/--header-lines is compared with the reference records under five write schedules.",
-                note="Item ordinals are observed in the interactive checks. Only read results an *os.File can produce are generated.",
+                note="Item ordinals are observed as the index field of GET / in the live-stream phase. Only read results an *os.File can produce are generated.",
                 ref="4/C06"),
     "C10": dict(engine="E-pkg",
                 technique="runtime monitor: partition-law and reference-selector oracles over Tokenize/Transform/with-nth renderer; reference evaluator per selected field for --nth",
@@ -93,7 +93,7 @@ CHECKS = {
                 ref="4/C19"),
     "C02": dict(engine="E-algo",
                 technique="runtime monitor: witness/completeness oracle over exported matcher calls (exhaustive short strings + random + long inputs), crash-isolated worker processes",
-                text="Every call of the seven exported matchers in the workload is observed and decided by an independent witness checker (positions, range, anchor, folding) and a brute-force completeness check; exhaustive for short strings over a class-covering alphabet, random and long (70k runes / 1.2k pattern) otherwise. Says nothing about inputs not generated.",
+                text="Every call of the seven exported matchers in the workload is observed and decided by an independent witness checker (positions, range, anchor, folding) and a brute-force completeness check; exhaustive for short strings over a class-covering alphabet, random and long (70k runes / 2.6k pattern, every slab kind x position tracking) otherwise. Says nothing about inputs not generated.",
                 note="Trusted: Go's unicode tables, fzf's accent table content, the reference folding (unicode.ToLower per rune). Pattern pre-conditions are those the query parser guarantees.",
                 ref="4/C02"),
     "C03": dict(engine="E-algo",
@@ -102,7 +102,7 @@ CHECKS = {
                 note="The reference recurrence transcribes the documented programme; a misconception shared with the implementation would go unnoticed. F7 (single-character early exit) is a listed known finding.",
                 ref="4/C03"),
     "C05": dict(engine="E-algo",
-                technique="runtime monitor: metamorphic equality under adversarial slab histories, representation and withPos changes; sub-list consistency at process level",
+                technique="runtime monitor: metamorphic equality under adversarial slab histories (stale contents, and the V2/V1 hand-over point after oversized calls), representation and withPos changes, at matcher and at whole-pattern level; sub-list consistency at process level (also under --nth)",
                 text="Every call made after an arbitrary history on a shared slab (stale contents, extreme values) must equal the same call with nil/fresh slab, the other text representation and the other withPos setting; process level: filtering a sub-list equals the full result restricted to it.",
                 note="V2 with a slab smaller than N*M is a documented fallback and excluded from nil-vs-slab equality. F12 (Start without positions) is a listed known finding.",
                 ref="4/C05"),
